@@ -13,23 +13,27 @@ FLAKY = ("test_channel_passing_over_channel", "test_dont_write_bytecode", "test_
 
 
 def sh(cmd, cwd=None, env=None, timeout=1800):
-    p = subprocess.run(cmd, shell=True, cwd=cwd, env=env, capture_output=True, text=True, timeout=timeout)
+    try:
+        p = subprocess.run(cmd, shell=True, cwd=cwd, env=env, capture_output=True, text=True, timeout=timeout, start_new_session=True)
+    except subprocess.TimeoutExpired:
+        return 124, "TIMEOUT after %s s" % timeout
     return p.returncode, p.stdout + p.stderr
 
 
-def main(prop, n):
-    wt = f"/tmp/seed/{prop}"
-    out = f"/tmp/seed/{prop}-out"
+def main(prop, n, base="/tmp/seed", outn=None):
+    outn = outn or n
+    wt = f"{base}/{prop}"
+    out = f"{base}/{prop}-out"
     patch = f"{out}/patch{n}.diff"
     demo = f"{out}/demo{n}.py"
     env = dict(os.environ, PYTHONPATH=f"{wt}/src")
-    meta = dict(property=prop, n=n)
+    meta = dict(property=prop, n=outn, written_against="original commit c817090" if base == "/tmp/seed" else "the repaired tree (/repo HEAD at the time)")
     sh("git checkout -- . && git clean -fdq -e src/execnet/_version.py", cwd=wt)
     rc0, o0 = sh(f"/venv/bin/python {demo}", cwd=out, env=env, timeout=600)
     meta["demo_without_patch_exit"] = rc0
     rc, o = sh(f"git apply {patch}", cwd=wt)
     meta["patch_applies_to_original"] = rc == 0
-    rc1, o1 = sh(f"/venv/bin/python {demo}", cwd=out, env=env, timeout=600)
+    rc1, o1 = sh(f"/venv/bin/python {demo}", cwd=out, env=env, timeout=180)
     meta["demo_with_patch_exit"] = rc1
     meta["demo_with_patch_output_tail"] = o1[-600:]
     rc2, o2 = sh("/venv/bin/python -m pytest -q -p no:cacheprovider --timeout=900 testing 2>&1 | grep -E '^FAILED|passed|failed' | tail -12",
@@ -44,7 +48,7 @@ def main(prop, n):
     meta["needs_to_manifest"] = ""
     meta["what_was_run"] = [f"PYTHONPATH={wt}/src /venv/bin/python demo{n}.py  (without patch: exit {rc0}; with patch: exit {rc1})",
                             f"cd {wt} && PYTHONPATH={wt}/src /venv/bin/python -m pytest -q -p no:cacheprovider --timeout=900 testing  -> {meta['suite_summary']}"]
-    d = f"/verif/seeded/{prop}-{n}"
+    d = f"/verif/seeded/{prop}-{outn}"
     os.makedirs(d, exist_ok=True)
     shutil.copy(patch, f"{d}/patch.diff")
     shutil.copy(demo, f"{d}/demo.py")
@@ -55,8 +59,8 @@ def main(prop, n):
     m = re.split(r"(?im)^#+ .*patch\s*%d.*$" % n, notes)
     meta["author_notes_excerpt"] = (m[1] if len(m) > 1 else notes)[:1800]
     json.dump(meta, open(f"{d}/meta.json", "w"), indent=1)
-    print(prop, n, "confirmed" if meta["confirmed"] else "NOT CONFIRMED", rc0, rc1, meta["suite_summary"], meta["suite_failures_beyond_known_flaky"])
+    print(prop, outn, "confirmed" if meta["confirmed"] else "NOT CONFIRMED", rc0, rc1, meta["suite_summary"], meta["suite_failures_beyond_known_flaky"])
 
 
 if __name__ == "__main__":
-    main(sys.argv[1], int(sys.argv[2]))
+    main(sys.argv[1], int(sys.argv[2]), *(sys.argv[3:4]), **({"outn": int(sys.argv[4])} if len(sys.argv) > 4 else {}))
